@@ -13,7 +13,7 @@ import (
 	"golang.org/x/tools/go/ssa"
 )
 
-func modelGlobal(g *ssa.Global) Val { return nil }
+func modelGlobal(g *ssa.Global) Val { return pebbleGlobal(g) }
 
 func argStr(p *Path, v Val) string {
 	s, ok := v.(StringVal)
@@ -385,6 +385,14 @@ func (in *Interp) formatTyped(p *Path, verb byte, flags string, v Val, t types.T
 			}
 		}
 	case *Term:
+		if !x.C && x.K == KFP && x.Pool != nil {
+			// a solver-chosen member of a concrete pool: format every member, select by the index
+			out := concStr(fmt.Sprintf("%"+flags+string(verb), x.Pool[len(x.Pool)-1]))
+			for i := len(x.Pool) - 2; i >= 0; i-- {
+				out = p.strIte(p.bvCmp("=", x.Sel, mkInt(int64(i))), concStr(fmt.Sprintf("%"+flags+string(verb), x.Pool[i])), out)
+			}
+			return out
+		}
 		if x.C {
 			switch x.K {
 			case KBool:
@@ -535,6 +543,41 @@ func init() {
 		p.ex.res.Reports[name] = out
 		p.ex.res.mu.Unlock()
 		return nil
+	}
+	vxExtra["vxSelF64"] = func(in *Interp, p *Path, fr *Frame, args []Val, site ssa.CallInstruction) Val {
+		sl := args[0].(SliceVal)
+		k := asTerm(args[1])
+		n := sl.concLen()
+		pool := make([]float64, n)
+		for i, e := range sl.elems()[:n] {
+			t := asTerm(e)
+			if !t.C {
+				p.end("unsupported", "vxSelF64 pool must be concrete")
+			}
+			pool[i] = t.F
+		}
+		if k.C {
+			return mkF64(pool[int(k.U)%n])
+		}
+		r := mkF64(pool[n-1])
+		for i := n - 2; i >= 0; i-- {
+			r = p.ite(p.bvCmp("=", k, mkInt(int64(i))), mkF64(pool[i]), r)
+		}
+		nr := *r
+		nr.Pool, nr.Sel = pool, k
+		return &nr
+	}
+	vxExtra["vxSelStr"] = func(in *Interp, p *Path, fr *Frame, args []Val, site ssa.CallInstruction) Val {
+		pool := p.sliceStrings(args[0])
+		k := asTerm(args[1])
+		if k.C {
+			return pool[int(k.U)%len(pool)]
+		}
+		r := pool[len(pool)-1]
+		for i := len(pool) - 2; i >= 0; i-- {
+			r = p.strIte(p.bvCmp("=", k, mkInt(int64(i))), pool[i], r)
+		}
+		return r
 	}
 	vxExtra["vxInts"] = func(in *Interp, p *Path, fr *Frame, args []Val, site ssa.CallInstruction) Val {
 		max := argInt(p, args[0])
